@@ -23,6 +23,18 @@ void tr(std::string const& s) { if (g_trace) { *g_trace += s; *g_trace += "\n"; 
 // bit0 timers, bit1 tcp loss-free, bit2 tcp lossy, bit3 udp burst with tail drops, bit4 resolver, bit5 NAT on the client route
 // special programs: 1000 = throws from a handler mid-way; 1001 = runs to a huge clock value and is left stop()ped
 // ---------------------------------------------------------------------------------------------
+// the program's own timer objects live in an arena whose slot order an environment can reverse: same program, same API calls,
+// different relative addresses of the objects (the trace must not depend on memory layout)
+bool g_arena_reverse = false;
+typedef std::unique_ptr<asio::high_resolution_timer, void (*)(asio::high_resolution_timer*)> timer_ptr;
+timer_ptr arena_timer(asio::io_context& ioc, int& next_slot)
+{
+	static int const N = 16; alignas(16) static char arena[N][sizeof(asio::high_resolution_timer) + 16];
+	int slot = next_slot++; if (slot >= N) throw std::runtime_error("arena full");
+	void* where = arena[g_arena_reverse ? N - 1 - slot : slot];
+	return timer_ptr(new (where) asio::high_resolution_timer(ioc), [](asio::high_resolution_timer* t) { t->~high_resolution_timer(); });
+}
+
 inline char pb(int s, int64_t i) { return char((s * 29 + i * 5 + (i >> 7) * 3 + 1) & 0xff); }
 
 void run_program(int p, std::string const& pcap)
@@ -50,9 +62,9 @@ void run_program(int p, std::string const& pcap)
 	auto H = [&](std::string const& s) { ++handlers; tr(fmt("@%lld %s", (long long)now_ns(), s.c_str())); if (special_throw && handlers == 25) throw prog_abort{ 1 }; };
 
 	// ---- timers ----
-	std::vector<std::unique_ptr<asio::high_resolution_timer>> tm;
+	std::vector<timer_ptr> tm; int slot = 0;
 	if (p & 1) {
-		for (int i = 0; i < 4; ++i) tm.emplace_back(new asio::high_resolution_timer(i % 2 ? nA : nB));
+		for (int i = 0; i < 4; ++i) tm.push_back(arena_timer(i % 2 ? nA : nB, slot));
 		int64_t d[] = { 10, 10, 3, 25 };
 		for (int i = 0; i < 4; ++i) { tm[size_t(i)]->expires_after(ms(d[i])); tm[size_t(i)]->async_wait([&, i](error_code const& ec) { H(fmt("timer%d %s", i, ecs(ec).c_str())); if (i == 2) { std::size_t n = tm[3]->cancel(); tr(fmt("cancel -> %zu", n)); tm[3]->expires_after(ms(1)); tm[3]->async_wait([&](error_code const& e2) { H("timer3b " + ecs(e2)); }); } }); }
 		asio::post(nA, [&]() { H("posted"); });
@@ -95,9 +107,9 @@ void run_program(int p, std::string const& pcap)
 		res.reset(new ip::tcp::resolver(nA));
 		auto rh = [&](const char* nm) { return [&, nm](error_code const& ec, ip::tcp::resolver::results_type r) { std::string s; for (auto& e : r) s += " " + eps(e.endpoint()); H(fmt("resolve %s %s%s", nm, ecs(ec).c_str(), s.c_str())); }; };
 		res->async_resolve("alpha", "80", rh("alpha")); res->async_resolve("beta", "81", rh("beta")); res->async_resolve("10.9.8.7", "82", rh("literal")); res->async_resolve("alpha", "83", rh("alpha2"));
-		tm.emplace_back(new asio::high_resolution_timer(nA)); auto* t = tm.back().get(); t->expires_after(ms(30)); t->async_wait([&](error_code const&) { H("resolver cancel"); res->cancel(); });
+		tm.push_back(arena_timer(nA, slot)); auto* t = tm.back().get(); t->expires_after(ms(30)); t->async_wait([&](error_code const&) { H("resolver cancel"); res->cancel(); });
 	}
-	if (special_stop) { tm.emplace_back(new asio::high_resolution_timer(nA)); auto* t = tm.back().get(); t->expires_after(chrono::duration_cast<duration>(chrono::hours(100000))); t->async_wait([&](error_code const&) { sim.stop(); }); }
+	if (special_stop) { tm.push_back(arena_timer(nA, slot)); auto* t = tm.back().get(); t->expires_after(chrono::duration_cast<duration>(chrono::hours(100000))); t->async_wait([&](error_code const&) { sim.stop(); }); }
 	std::size_t n = sim.run();
 	tr(fmt("run returned %zu at %lld", n, (long long)now_ns()));
 	for (auto& r : w.log) tr(r.str());
@@ -129,6 +141,7 @@ std::string emit(int p, std::string const& envname, std::string const& scratch)
 	if (envname == "heapB") { for (int i = 0; i < 1000; ++i) keep.push_back(std::malloc(size_t(24 + (i * 101) % 5000))); for (size_t i = 0; i < keep.size(); i += 3) { std::free(keep[i]); keep[i] = nullptr; } }
 	if (envname == "stack00") dirty_stack(0x00);
 	if (envname == "stackff") dirty_stack(0xff);
+	g_arena_reverse = envname == "arenarev";
 	if (envname == "twice") traced_run(p, pcap);
 	if (envname.compare(0, 4, "pred") == 0) traced_run(std::atoi(envname.c_str() + 4), pcap + ".pred");
 	std::string t = traced_run(p, pcap);
@@ -142,7 +155,7 @@ std::vector<EnvSpec> envs(bool thorough)
 	std::vector<EnvSpec> e = {
 		{ "baseline", "", false }, { "fill00", "malloc_fill_byte=0:max_malloc_fill_size=1048576", false }, { "fill5a", "malloc_fill_byte=90:max_malloc_fill_size=1048576", false },
 		{ "filla5", "malloc_fill_byte=165:max_malloc_fill_size=1048576", false }, { "fillff", "malloc_fill_byte=255:max_malloc_fill_size=1048576", false },
-		{ "heapA", "", false }, { "heapB", "", false }, { "stack00", "", false }, { "stackff", "", false }, { "noaslr", "", true },
+		{ "heapA", "", false }, { "heapB", "", false }, { "arenarev", "", false }, { "stack00", "", false }, { "stackff", "", false }, { "noaslr", "", true },
 		{ "twice", "", false }, { "pred63", "", false }, { "pred1000", "", false }, { "pred1001", "", false } };
 	if (thorough) for (const char* n : { "pred1", "pred6", "pred8", "pred16", "pred36", "pred27" }) e.push_back(EnvSpec{ n, "", false });
 	if (thorough) { e.push_back(EnvSpec{ "fill00+heapB", "malloc_fill_byte=0:max_malloc_fill_size=1048576", false }); e.push_back(EnvSpec{ "noaslr+fillff", "malloc_fill_byte=255:max_malloc_fill_size=1048576", true }); }
